@@ -194,6 +194,16 @@ func (f *Func) Atom(e ast.Expr) (key string, neg bool) {
 			return "const:" + c, false
 		}
 		return "v:" + f.Render(x), false
+	case *ast.SelectorExpr:
+		// a boolean field: the same key an assignment to it learns
+		if tv, ok := f.Info.Types[x]; ok && tv.Type != nil {
+			if b, ok := tv.Type.Underlying().(*types.Basic); ok && b.Info()&types.IsBoolean != 0 {
+				if c, ok := f.constOf(x); ok {
+					return "const:" + c, false
+				}
+				return "v:" + f.Render(x), false
+			}
+		}
 	case *ast.CallExpr:
 		return "call:" + f.Render(x), false
 	}
